@@ -113,6 +113,11 @@ def floor(tier):
         add(model, {"kind": "lib2d", "fracs": [0, 1, 2], "cartesian": False}, None, 1.0)
         add(model, {"kind": "lib3d", "fracs": [0, 1, 2] if model == "spf" else [0, 1],
                     "cartesian": True}, 14, 0.7)
+        # non-matching interfaces: fracture and mortar grids refined independently
+        add(model, {"kind": "nonmatching2d", "fracs": [0], "frac_ratio": 2, "intf_ratio": 3},
+            18, 1.0)
+        add(model, {"kind": "nonmatching2d", "fracs": [0, 1], "frac_ratio": 3, "intf_ratio": 2,
+                    "h": 0.5}, None, 0.8)
     add("spf", {"kind": "lib3d", "fracs": [0], "cartesian": False, "h": 1.0}, 15, 1.0)
     add("poro", {"kind": "lib2d", "fracs": [0, 1], "cartesian": True}, 16, 1.0)
     add("thm", {"kind": "lib2d", "fracs": [0, 1], "cartesian": True}, 17, 0.5)
@@ -122,6 +127,10 @@ def floor(tier):
 def _random_geometry(rng, name, tier):
     u = rng.random()
     mech = name in cm.HAS_MECH
+    if u < 0.08 and not mech:
+        fr = [[0], [1], [0, 1]][int(rng.integers(3))]
+        return {"kind": "nonmatching2d", "fracs": fr, "frac_ratio": int(rng.integers(1, 4)),
+                "intf_ratio": int(rng.integers(1, 4)), "h": float(rng.choice([0.25, 0.5]))}
     if u < 0.2:
         cart = bool(rng.random() < 0.5)
         pool = [0, 1] if cart else [0, 1, 2]
